@@ -47,10 +47,12 @@ type FuncUnit struct {
 }
 
 type Model struct {
-	kindConsts map[int64]ast.Expr
-	L          *Loaded
-	Info       *types.Info
-	Pkg        *types.Package
+	TableConsts    int                 // expressions given a constant value by foldTableConstants
+	ReadOnlyTables map[*types.Var]bool // package-level composite-literal variables nothing writes to
+	kindConsts     map[int64]ast.Expr
+	L              *Loaded
+	Info           *types.Info
+	Pkg            *types.Package
 
 	NodeRef   *types.Named
 	KindType  *types.Named
@@ -100,6 +102,9 @@ func buildModel(l *Loaded) (*Model, error) {
 	m := &Model{L: l, Info: l.Art.TypesInfo, Pkg: l.Art.Types, NoBody: map[*types.Func]*ast.FuncDecl{},
 		KindName: map[int64]string{}, ByName: map[string]*FuncUnit{}, ByObj: map[*types.Func]*FuncUnit{}, LitUnit: map[*ast.FuncLit]*FuncUnit{}}
 	scope := m.Pkg.Scope()
+	// constants read through read-only tables become constants of the type checker's record
+	// (tableconst.go) before anything looks at it
+	m.TableConsts = m.foldTableConstants(l.Art.Syntax)
 
 	// --- function units
 	for _, f := range l.artFiles() {
@@ -394,7 +399,81 @@ func buildModel(l *Loaded) (*Model, error) {
 		}
 	}
 	if len(m.LeafTypes) == 0 {
-		return nil, fmt.Errorf("model: leaf constraint (nodeLeaf) union terms not found")
+		// no constraint listing the leaf layouts: they are the struct types whose address is stored
+		// behind a reference tagged as a leaf (unsafe.Pointer(&T{…}), directly or in a function
+		// literal the operand calls)
+		seen := map[*types.TypeName]bool{}
+		addFrom := func(e ast.Node) {
+			ast.Inspect(e, func(z ast.Node) bool {
+				ue, ok := z.(*ast.UnaryExpr)
+				if !ok || ue.Op != token.AND {
+					return true
+				}
+				if cl, ok := ast.Unparen(ue.X).(*ast.CompositeLit); ok {
+					if n := namedOf(m.Info.TypeOf(cl)); n != nil {
+						if _, isStruct := n.Underlying().(*types.Struct); isStruct && n.Obj().Pkg() == m.Pkg && !seen[n.Origin().Obj()] {
+							seen[n.Origin().Obj()] = true
+							m.LeafTypes = append(m.LeafTypes, n.Origin())
+						}
+					}
+				}
+				return true
+			})
+		}
+		for _, f := range l.artFiles() {
+			ast.Inspect(f, func(n ast.Node) bool {
+				cl, ok := n.(*ast.CompositeLit)
+				if !ok || m.NodeRef == nil {
+					return true
+				}
+				if nn := namedOf(m.Info.TypeOf(cl)); nn == nil || nn.Obj() != m.NodeRef.Obj() {
+					return true
+				}
+				isLeaf := false
+				var ptr ast.Expr
+				for _, el := range cl.Elts {
+					kv, ok := el.(*ast.KeyValueExpr)
+					if !ok {
+						continue
+					}
+					if id, ok := kv.Key.(*ast.Ident); ok {
+						switch id.Name {
+						case "tag":
+							if tv, has := m.Info.Types[kv.Value]; has && tv.Value != nil {
+								if v, exact := constant.Int64Val(tv.Value); exact && v == m.LeafKind.Value {
+									isLeaf = true
+								}
+							}
+						case "pointer":
+							ptr = kv.Value
+						}
+					}
+				}
+				if !isLeaf || ptr == nil {
+					return true
+				}
+				addFrom(ptr)
+				// createLeaf(): the literal bound to the called variable, anywhere in the file
+				if call, ok := ast.Unparen(ptr).(*ast.CallExpr); ok {
+					if id, ok := ast.Unparen(call.Fun).(*ast.Ident); ok {
+						if v, _ := m.Info.ObjectOf(id).(*types.Var); v != nil {
+							ast.Inspect(f, func(z ast.Node) bool {
+								if as, ok := z.(*ast.AssignStmt); ok && len(as.Lhs) == 1 && len(as.Rhs) == 1 {
+									if lid, ok := as.Lhs[0].(*ast.Ident); ok && m.Info.ObjectOf(lid) == v {
+										addFrom(as.Rhs[0])
+									}
+								}
+								return true
+							})
+						}
+					}
+				}
+				return true
+			})
+		}
+	}
+	if len(m.LeafTypes) == 0 {
+		return nil, fmt.Errorf("model: leaf layouts not found (no nodeLeaf constraint and no struct stored behind a leaf-tagged reference)")
 	}
 	if c, ok := scope.Lookup("maxPrefixLen").(*types.Const); ok {
 		m.MaxPrefixLen, _ = constant.Int64Val(c.Val())
